@@ -40,7 +40,17 @@ def make_call(rng, sc, qc):
 def run_histories(binp, cases):
     for i, c in enumerate(cases):
         c["id"] = i
-    return C.jsonl(C.harness(binp, "pool", "run", input="".join(json.dumps(c) + "\n" for c in cases), timeout=3000))
+    # sharded, and a history that takes the process down (a fatal Go error cannot be recovered) comes back as a crash record
+    out = C.harness_parallel(binp, "pool", cases, shards=8, crash_timeout=60)
+    for r in out:
+        if r.get("crash"):
+            r.setdefault("double_redeems", [])
+            r.setdefault("diffs", [])
+            r.setdefault("first_panicked", True)
+            r.setdefault("ncalls", 0)
+            r.setdefault("stats", [])
+            r.setdefault("invocations", 0)
+    return out
 
 
 FORMAT_WORKLOADS = [
